@@ -29,11 +29,13 @@ pub mod c24_alias;
 pub mod c25_sanity;
 pub mod c26_freelist;
 pub mod c27_rawgrow;
+pub mod c28_pageresource;
 pub mod c31_resolve;
 pub mod c32_descriptor;
 pub mod c33_align;
 pub mod c34_immix;
 pub mod c35_sizeclass;
+pub mod c37_compressor;
 pub mod c38_membalancer;
 pub mod c40_groupby;
 
@@ -52,11 +54,13 @@ pub fn replay_table() -> Vec<(&'static str, fn(&mut Src))> {
     v.extend_from_slice(c25_sanity::TABLE);
     v.extend_from_slice(c26_freelist::TABLE);
     v.extend_from_slice(c27_rawgrow::TABLE);
+    v.extend_from_slice(c28_pageresource::TABLE);
     v.extend_from_slice(c31_resolve::TABLE);
     v.extend_from_slice(c32_descriptor::TABLE);
     v.extend_from_slice(c33_align::TABLE);
     v.extend_from_slice(c34_immix::TABLE);
     v.extend_from_slice(c35_sizeclass::TABLE);
+    v.extend_from_slice(c37_compressor::TABLE);
     v.extend_from_slice(c38_membalancer::TABLE);
     v.extend_from_slice(c40_groupby::TABLE);
     v
